@@ -98,7 +98,7 @@ def known_recursion(run):
     if ok:
         run.obligation("recursion.array", "discharged", "generate_one terminates on Tree{kids: array<Tree>}", paths=1)
         return
-    text = ("import sys\nsys.path[:0]=['/repo']\nsys.setrecursionlimit(400)\nfrom fastavro.utils import generate_one\n"
+    text = ("import sys, os\nsys.path[:0]=[os.environ.get('VF_REPO','/repo')]\nsys.setrecursionlimit(400)\nfrom fastavro.utils import generate_one\n"
             "s={'type':'record','name':'Tree','fields':[{'name':'kids','type':{'type':'array','items':'Tree'}}]}\n"
             "try:\n    generate_one(s)\nexcept RecursionError:\n    print('REPRODUCED generate_one does not terminate on a type recursive through an array')\n    sys.exit(1)\nprint('ok')\n")
     v = run.violation("recursion.array", "generate:recursive-through-collection",
